@@ -550,7 +550,7 @@ func genLife(t *rapid.T) lifeCase {
 var chkLife = harness.Define("server-lifecycle", genLife, runLife)
 
 func TestRandom(t *testing.T) {
-	chkLife.Rapid(t, harness.Pick(24, 250))
+	chkLife.Rapid(t, harness.Pick(24, 1200))
 }
 
 // TestCallbackCombinations: every set/unset combination of the four callbacks, each with the same two scripts
